@@ -161,15 +161,18 @@ package biscuit
 //@ ensures accept_implies_chain[C01 C09]: err == nil ==> chainOK(b.container, bview(root)) && proofOK(b.container)
 //@ ensures chain_implies_accept[C01 C09]: chainOK(b.container, bview(root)) && proofOK(b.container) ==> err == nil && res != nil
 //@ ensures passes_options[C11]: err == nil ==> limitsOf(res) == optLimits(opts)
+//@ ensures wf: err == nil ==> res is *authorizer && authWF(res.(*authorizer)) && res.(*authorizer).biscuit == b
 
 //@ func NewVerifier(b *Biscuit, opts []AuthorizerOption) (res Authorizer, err error)
 //@ serves C01 C10 C11 C13
 //@ requires forall j int :: { opts[j] } 0 <= j && j < len(opts) ==> opts[j] != nil
 //@ modifies nothing
 //@ loop 0 invariant a != nil && fresh(a) && a.baseSymbols != nil && a.baseWorld != nil && a.baseWorld.facts != nil && a.biscuit == b
+//@ loop 0 invariant len(*a.baseWorld.facts) == 0 && len(a.baseWorld.rules) == 0 && len(a.checks) == 0 && len(a.policies) == 0 && !a.dirty
 //@ loop 0 invariant a.baseWorld.runLimits == aoFold(inner(opts), off(opts), #i, datalog.defaultRunLimits)
 //@ ensures err == nil && res != nil
 //@ ensures applies_all_options[C11]: limitsOf(res) == optLimits(opts) && res.(*authorizer).baseWorld.runLimits == optLimits(opts)
+//@ ensures wf: res is *authorizer && authWF(res.(*authorizer)) && res.(*authorizer).biscuit == b && len(res.(*authorizer).checks) == 0 && len(res.(*authorizer).policies) == 0 && !res.(*authorizer).dirty
 
 // Options are functions over the unexported *authorizer: only this package can
 // define them, and each one is verified against this contract.
@@ -177,6 +180,7 @@ package biscuit
 //@ serves C01 C10 C11 C13
 //@ requires w != nil && w.baseSymbols != nil
 //@ modifies w.baseWorld
+//@ touches cell:datalog.World cell:datalog.FactSet arr:[]datalog.Rule arr:datalog.FactSet
 //@ ensures w.baseWorld != nil && w.baseWorld.facts != nil && len(*w.baseWorld.facts) == 0 && len(w.baseWorld.rules) == 0 && fresh(w.baseWorld)
 //@ defines w.baseWorld.runLimits == aoApply(self, old(w.baseWorld.runLimits))
 
@@ -310,6 +314,7 @@ package biscuit
 //@ ensures no_key[C16]: keySource != nil && ksErr(keySource, b.container.RootKeyId) == 0 && len(ksKey(keySource, b.container.RootKeyId)) == 0 ==> err == ErrNoPublicKeyAvailable
 //@ ensures uses_selected_key[C01 C16]: err == nil ==> keySource != nil && chainOK(b.container, bview(ksKey(keySource, b.container.RootKeyId))) && proofOK(b.container)
 //@ ensures passes_options[C11]: err == nil ==> limitsOf(res) == optLimits(opts)
+//@ ensures wf: err == nil ==> res is *authorizer && authWF(res.(*authorizer)) && res.(*authorizer).biscuit == b
 //@ ensures accepts_under_selected_key[C01 C16]: keySource != nil && ksErr(keySource, b.container.RootKeyId) == 0 && len(ksKey(keySource, b.container.RootKeyId)) == 32 && chainOK(b.container, bview(ksKey(keySource, b.container.RootKeyId))) && proofOK(b.container) ==> err == nil
 
 //@ func (b *Biscuit) Authorizer(root ed25519.PublicKey, opts []AuthorizerOption) (res Authorizer, err error)
@@ -320,6 +325,7 @@ package biscuit
 //@ ensures no_authorizer_on_error: err != nil ==> res == nil
 //@ ensures accept_iff_chain[C01]: (err == nil) == (chainOK(b.container, bview(root)) && proofOK(b.container))
 //@ ensures passes_options[C11]: err == nil ==> limitsOf(res) == optLimits(opts)
+//@ ensures wf: err == nil ==> res is *authorizer && authWF(res.(*authorizer)) && res.(*authorizer).biscuit == b
 
 // ---------------------------------------------------------------------------
 // builder-level values to datalog values and back (types.go): C07 C10 C14
@@ -519,3 +525,122 @@ package biscuit
 //@ modifies nothing
 //@ loop 0 invariant len(queries) == len(dlCheck.Queries) && fresh(arr(queries)) && (forall k int :: { queries[k] } 0 <= k && k < #i ==> bRuleWF(queries[k]))
 //@ ensures total: err == nil && res != nil && fresh(res) && bCheckWF(*res) && len(res.Queries) == len(dlCheck.Queries)
+
+// ---------------------------------------------------------------------------
+// authorizer (authorizer.go): C03 C04 C10 C11 C13
+
+//@ func (v *authorizer) AddFact(fact Fact)
+//@ serves C10 C13
+//@ requires authWF(v) && bPredWF(fact.Predicate)
+//@ modifies *v.world.facts, spare(*v.world.facts), *v.symbols, spare(*v.symbols)
+//@ ensures authWF(v)
+
+//@ func (v *authorizer) AddRule(rule Rule)
+//@ serves C10 C13
+//@ requires authWF(v) && bRuleWF(rule)
+//@ modifies v.world.rules, spare(v.world.rules), *v.symbols, spare(*v.symbols)
+//@ ensures authWF(v)
+
+//@ func (v *authorizer) AddCheck(check Check)
+//@ serves C10 C13
+//@ requires authWF(v) && bCheckWF(check)
+//@ modifies v.checks, spare(v.checks)
+//@ ensures authWF(v) && len(v.checks) == old(len(v.checks)) + 1
+
+//@ func (v *authorizer) AddPolicy(policy Policy)
+//@ serves C10 C13
+//@ requires authWF(v) && bPolicyWF(policy)
+//@ modifies v.policies, spare(v.policies)
+//@ ensures authWF(v) && len(v.policies) == old(len(v.policies)) + 1
+
+//@ func (v *authorizer) Reset()
+//@ serves C10 C13
+//@ requires v != nil && worldWF(v.baseWorld) && v.baseSymbols != nil
+//@ modifies v.world, v.symbols, v.checks, v.policies, v.dirty
+//@ ensures clean_world[C13]: v.world != nil && fresh(v.world) && fresh(v.world.facts) && *v.world.facts == *v.baseWorld.facts && len(v.world.rules) == len(v.baseWorld.rules) && (forall j int :: { v.world.rules[j] } 0 <= j && j < len(v.world.rules) ==> v.world.rules[j] == v.baseWorld.rules[j]) && v.world.runLimits == v.baseWorld.runLimits
+//@ ensures clean_symbols[C13]: v.symbols != nil && fresh(v.symbols) && fresh(arr(*v.symbols)) && len(*v.symbols) == len(*v.baseSymbols) && (forall j int :: { (*v.symbols)[j] } 0 <= j && j < len(*v.symbols) ==> (*v.symbols)[j] == (*v.baseSymbols)[j])
+//@ ensures clean_lists[C13]: len(v.checks) == 0 && len(v.policies) == 0 && !v.dirty
+//@ ensures base_untouched[C13]: v.baseWorld == old(v.baseWorld) && v.baseSymbols == old(v.baseSymbols)
+//@ ensures authWF(v)
+
+//@ func (v *authorizer) Biscuit() (res *Biscuit)
+//@ serves C10
+//@ requires v != nil
+//@ modifies nothing
+//@ ensures res == v.biscuit
+
+//@ func (v *authorizer) Authorize() (err error)
+//@ serves C03 C04 C10 C11 C13
+//@ requires authInv(v)
+//@ modifies v.dirty, *v.world.facts, spare(*v.world.facts), v.world.rules, spare(v.world.rules), *v.symbols, spare(*v.symbols), v.block_worlds, spare(v.block_worlds)
+//@ loop 0 modifies *v.world.facts, spare(*v.world.facts), *v.symbols, spare(*v.symbols)
+//@ loop 0 invariant authInv(v)
+//@ loop 0 invariant syms: tableGrown(*v.symbols, old(*v.symbols)) && tableGrownInLoop(*v.symbols, pre(*v.symbols))
+//@ loop 0 invariant facts: factsGrown(*v.world.facts, old(*v.world.facts)) && factsGrownInLoop(*v.world.facts, pre(*v.world.facts))
+//@ loop 1 modifies v.world.rules, spare(v.world.rules), *v.symbols, spare(*v.symbols)
+//@ loop 1 invariant authInv(v)
+//@ loop 1 invariant syms: tableGrown(*v.symbols, old(*v.symbols)) && tableGrownInLoop(*v.symbols, pre(*v.symbols))
+//@ loop 1 invariant facts: factsGrown(*v.world.facts, old(*v.world.facts))
+//@ loop 1 invariant rules: rulesGrown(v.world.rules, old(v.world.rules)) && rulesGrownInLoop(v.world.rules, pre(v.world.rules))
+//@ loop 2 modifies spare(errs), *v.symbols, spare(*v.symbols)
+//@ loop 2 invariant authInv(v) && len(*v.world.facts) < v.world.runLimits.maxFacts
+//@ loop 2 invariant syms: tableGrown(*v.symbols, old(*v.symbols)) && tableGrownInLoop(*v.symbols, pre(*v.symbols))
+//@ loop 2 invariant facts: factsGrown(*v.world.facts, old(*v.world.facts))
+//@ loop 2 invariant errsA: (cap(errs) == 0 || fresh(arr(errs)))
+//@ loop 2 invariant errsB: (arr(errs) == arr(pre(errs)) && off(errs) == off(pre(errs)) && cap(errs) == cap(pre(errs)) && len(errs) >= len(pre(errs))) || freshInLoop(arr(errs))
+//@ loop 2 invariant errsC: forall k int :: { errs[k] } 0 <= k && k < len(errs) ==> errs[k] != nil
+//@ loop 3 modifies *v.symbols, spare(*v.symbols)
+//@ loop 3 invariant authInv(v) && checkWF(c)
+//@ loop 3 invariant syms: tableGrown(*v.symbols, old(*v.symbols)) && tableGrownInLoop(*v.symbols, pre(*v.symbols))
+//@ loop 4 modifies spare(errs), *v.symbols, spare(*v.symbols)
+//@ loop 4 invariant authInv(v) && len(*v.world.facts) < v.world.runLimits.maxFacts
+//@ loop 4 invariant syms: tableGrown(*v.symbols, old(*v.symbols)) && tableGrownInLoop(*v.symbols, pre(*v.symbols))
+//@ loop 4 invariant facts: factsGrown(*v.world.facts, old(*v.world.facts))
+//@ loop 4 invariant errsA: (cap(errs) == 0 || fresh(arr(errs)))
+//@ loop 4 invariant errsB: (arr(errs) == arr(pre(errs)) && off(errs) == off(pre(errs)) && cap(errs) == cap(pre(errs)) && len(errs) >= len(pre(errs))) || freshInLoop(arr(errs))
+//@ loop 4 invariant errsC: forall k int :: { errs[k] } 0 <= k && k < len(errs) ==> errs[k] != nil
+//@ loop 5 modifies *v.symbols, spare(*v.symbols)
+//@ loop 5 invariant authInv(v) && checkWF(c)
+//@ loop 5 invariant syms: tableGrown(*v.symbols, old(*v.symbols)) && tableGrownInLoop(*v.symbols, pre(*v.symbols))
+//@ loop 6 modifies *v.symbols, spare(*v.symbols)
+//@ loop 6 invariant authInv(v) && len(*v.world.facts) < v.world.runLimits.maxFacts
+//@ loop 6 invariant syms: tableGrown(*v.symbols, old(*v.symbols)) && tableGrownInLoop(*v.symbols, pre(*v.symbols))
+//@ loop 6 invariant facts: factsGrown(*v.world.facts, old(*v.world.facts))
+//@ loop 6 invariant verdict: (policyResult == nil ==> (exists p int :: { v.policies[p] } 0 <= p && p < #i && v.policies[p].Kind == PolicyKindAllow)) && (!policyMatched ==> policyResult != nil)
+//@ loop 7 modifies *v.symbols, spare(*v.symbols)
+//@ loop 7 invariant authInv(v)
+//@ loop 7 invariant syms: tableGrown(*v.symbols, old(*v.symbols)) && tableGrownInLoop(*v.symbols, pre(*v.symbols))
+//@ loop 8 modifies v.block_worlds, spare(v.block_worlds), spare(errs), *v.symbols, spare(*v.symbols), spare(*v.world.facts)
+//@ loop 8 invariant authInv(v) && len(*v.world.facts) < v.world.runLimits.maxFacts
+//@ loop 8 invariant syms: tableGrown(*v.symbols, old(*v.symbols)) && tableGrownInLoop(*v.symbols, pre(*v.symbols))
+//@ loop 8 invariant errsA: (cap(errs) == 0 || fresh(arr(errs)))
+//@ loop 8 invariant errsB: (arr(errs) == arr(pre(errs)) && off(errs) == off(pre(errs)) && cap(errs) == cap(pre(errs)) && len(errs) >= len(pre(errs))) || freshInLoop(arr(errs))
+//@ loop 8 invariant errsC: forall k int :: { errs[k] } 0 <= k && k < len(errs) ==> errs[k] != nil
+//@ loop 8 invariant facts: factsGrown(*v.world.facts, old(*v.world.facts))
+//@ loop 8 invariant worlds: worldsGrown(v.block_worlds, old(v.block_worlds)) && worldsGrownInLoop(v.block_worlds, pre(v.block_worlds))
+//@ loop 9 modifies *block_world.facts, spare(*block_world.facts), *v.symbols, spare(*v.symbols)
+//@ loop 9 invariant authInv(v)
+//@ loop 9 invariant bw: blockWorldOK(v, block_world)
+//@ loop 9 invariant syms: tableGrown(*v.symbols, old(*v.symbols)) && tableGrownInLoop(*v.symbols, pre(*v.symbols))
+//@ loop 9 invariant facts: factsGrown(*v.world.facts, old(*v.world.facts)) && factsGrownInLoop(*block_world.facts, pre(*block_world.facts))
+//@ loop 10 modifies block_world.rules, spare(block_world.rules), *v.symbols, spare(*v.symbols)
+//@ loop 10 invariant authInv(v)
+//@ loop 10 invariant bw: blockWorldOK(v, block_world)
+//@ loop 10 invariant syms: tableGrown(*v.symbols, old(*v.symbols)) && tableGrownInLoop(*v.symbols, pre(*v.symbols))
+//@ loop 10 invariant rules: factsGrown(*v.world.facts, old(*v.world.facts)) && rulesGrownInLoop(block_world.rules, pre(block_world.rules))
+//@ loop 11 modifies spare(errs), *v.symbols, spare(*v.symbols)
+//@ loop 11 invariant authInv(v)
+//@ loop 11 invariant bw: blockWorldOK(v, block_world)
+//@ loop 11 invariant syms: tableGrown(*v.symbols, old(*v.symbols)) && tableGrownInLoop(*v.symbols, pre(*v.symbols))
+//@ loop 11 invariant errsA: (cap(errs) == 0 || fresh(arr(errs)))
+//@ loop 11 invariant errsB: (arr(errs) == arr(pre(errs)) && off(errs) == off(pre(errs)) && cap(errs) == cap(pre(errs)) && len(errs) >= len(pre(errs))) || freshInLoop(arr(errs))
+//@ loop 11 invariant errsC: forall k int :: { errs[k] } 0 <= k && k < len(errs) ==> errs[k] != nil
+//@ loop 12 modifies *v.symbols, spare(*v.symbols)
+//@ loop 12 invariant authInv(v)
+//@ loop 12 invariant bw: blockWorldOK(v, block_world)
+//@ loop 12 invariant cwf: checkWF(c)
+//@ loop 12 invariant syms: tableGrown(*v.symbols, old(*v.symbols)) && tableGrownInLoop(*v.symbols, pre(*v.symbols))
+//@ loop 13 modifies elems(errMsg)
+//@ loop 13 invariant len(errMsg) == len(errs) && fresh(arr(errMsg)) && (forall k int :: { errs[k] } 0 <= k && k < len(errs) ==> errs[k] != nil)
+//@ ensures allow_needed[C04]: err == nil ==> (exists p int :: { v.policies[p] } 0 <= p && p < len(v.policies) && v.policies[p].Kind == PolicyKindAllow)
+//@ ensures within_limits[C11]: err == nil ==> len(*v.world.facts) < v.world.runLimits.maxFacts
